@@ -57,22 +57,41 @@ func Explore(r *Result, sp SchedSpec) *explore.Stats {
 			return sp.Expect
 		}
 	}
-	// The harnesses are deterministic functions of the schedule on the unchanged tree (every run re-checks
-	// it). If the same schedule gives different observations or a recorded schedule cannot be replayed, state
-	// survived from one execution to the next inside the code under test (a package-level cache, a pooled
-	// object, a lazily initialised table ...): for this library that is a violation in itself (results must
-	// not depend on earlier calls), and it is reported as such instead of exploring on top of it.
-	hidden := func(what string) *explore.Stats {
-		r.Violate(Violation{Check: strings.Split(sp.Check, ".")[0] + ".hidden_state", API: sp.API, Input: sp.Name,
-			Expected: "the same schedule gives the same execution every time (no state survives between executions)", Got: what})
-		r.Exhaustive = false
-		return &explore.Stats{Mode: sp.Mode, Outcomes: map[string]int{}, OutcomeSchedule: map[string][]int{}}
+	// The harnesses are deterministic functions of the schedule on the unchanged tree. On an edited tree state
+	// may survive from one execution to the next inside the code under test (a cache, a lazily built table).
+	// That is not a violation by itself — a correct cache changes the number of scheduling points of later
+	// executions, not any result — so it is only recorded (the unit is then not exhaustive: recorded
+	// schedules may not be replayable); wrong RESULTS are violations wherever they are observed, including in
+	// the two default executions, and are reported even when they cannot be reproduced from their schedule.
+	stateful := ""
+	noteState := func(what string) {
+		if stateful == "" {
+			stateful = what
+			r.Note("state_survives_between_executions", sp.Name+": "+what)
+			r.Caps = append(r.Caps, sp.Name+": state survives between executions of the code under test ("+clip(what, 160)+"); exploration on a best-effort basis")
+			r.Exhaustive = false
+		}
+	}
+	reported := map[string]bool{}
+	report := func(o string, sch []int, replays int, how string) {
+		want := judge(o)
+		if want == "" || reported[o] {
+			return
+		}
+		reported[o] = true
+		got := o
+		if how != "" {
+			got += " [" + how + "]"
+		}
+		r.Violate(Violation{Check: sp.Check, API: sp.API, Input: sp.Name, Expected: want, Got: got, Schedule: sch, Replays: replays})
 	}
 	// determinism: the empty prefix twice
 	a := explore.RunOnce(sp.Body, nil)
 	b := explore.RunOnce(sp.Body, nil)
 	if a.Outcome() != b.Outcome() || !sameInts(a.Ns, b.Ns) {
-		return hidden(fmt.Sprintf("default schedule gave %q (%d choice points), then %q (%d choice points)", clip(a.Outcome(), 200), len(a.Ns), clip(b.Outcome(), 200), len(b.Ns)))
+		noteState(fmt.Sprintf("the default schedule gave %q (%d choice points), then %q (%d choice points)", clip(a.Outcome(), 120), len(a.Ns), clip(b.Outcome(), 120), len(b.Ns)))
+		report(a.Outcome(), a.Choices, 1, "first execution of the default schedule")
+		report(b.Outcome(), b.Choices, 1, "second execution of the default schedule")
 	}
 	var st *explore.Stats
 	diverged := ""
@@ -97,7 +116,8 @@ func Explore(r *Result, sp SchedSpec) *explore.Stats {
 		}
 	}()
 	if diverged != "" {
-		return hidden("a recorded schedule could not be replayed: " + diverged)
+		noteState("a recorded schedule could not be replayed: " + diverged)
+		return &explore.Stats{Mode: sp.Mode, Outcomes: map[string]int{}, OutcomeSchedule: map[string][]int{}}
 	}
 	r.AddStats(st)
 	// a non-trivial recorded schedule replayed twice
@@ -112,31 +132,34 @@ func Explore(r *Result, sp SchedSpec) *explore.Stats {
 			longest = o
 		}
 	}
-	if longest != "" {
+	if longest != "" && stateful == "" {
 		sch := st.OutcomeSchedule[longest]
 		x1 := explore.RunOnce(sp.Body, sch)
 		x2 := explore.RunOnce(sp.Body, sch)
 		if x1.Outcome() != longest || x2.Outcome() != longest {
-			return hidden(fmt.Sprintf("schedule %v gave %q, then %q and %q", sch, clip(longest, 150), clip(x1.Outcome(), 150), clip(x2.Outcome(), 150)))
+			noteState(fmt.Sprintf("schedule %v gave %q, then %q and %q", sch, clip(longest, 100), clip(x1.Outcome(), 100), clip(x2.Outcome(), 100)))
 		}
 	}
 	for _, o := range outs {
-		want := judge(o)
-		if want == "" {
+		if judge(o) == "" {
 			continue
 		}
 		sch := st.OutcomeSchedule[o]
 		confirmed := 0
-		for i := 0; i < 5; i++ {
-			if explore.RunOnce(sp.Body, sch).Outcome() == o {
-				confirmed++
+		func() {
+			defer func() { recover() }() // a diverging replay of a stateful harness
+			for i := 0; i < 5; i++ {
+				if explore.RunOnce(sp.Body, sch).Outcome() == o {
+					confirmed++
+				}
 			}
-		}
+		}()
+		how := ""
 		if confirmed < 5 {
-			hidden(fmt.Sprintf("outcome %q reproduced only %d/5 times from its schedule %v", clip(o, 150), confirmed, sch))
-			continue
+			noteState(fmt.Sprintf("outcome %q reproduced only %d/5 times from its schedule", clip(o, 100), confirmed))
+			how = fmt.Sprintf("observed in a controlled execution of the real code; reproduced %d/5 times from its schedule because state survives between executions", confirmed)
 		}
-		r.Violate(Violation{Check: sp.Check, API: sp.API, Input: sp.Name, Expected: want, Got: o, Schedule: sch, Replays: confirmed})
+		report(o, sch, confirmed, how)
 	}
 	if len(r.Samples) < 3 {
 		r.Sample(map[string]interface{}{"harness": sp.Name, "mode": st.Mode, "executions": st.Execs, "complete_traces": st.Complete,
